@@ -1,4 +1,4 @@
-(* Proofs about Model/QueryParse.v (property C15), repaired code (fx = true):
+(* Proofs about Model/QueryParse.v (property C15), current code (fx = true, fix commit 1bd4096):
    a query text whose grouping symbols are unbalanced is rejected. *)
 From Coq Require Import List NArith Arith Bool Lia.
 From HV Require Import Base.Res Base.Str Model.Query Model.QueryParse Proofs.QueryParseProofs.
@@ -301,15 +301,24 @@ Proof.
   simpl. apply p_or_body_cons; assumption.
 Qed.
 
-Lemma parse_tokens_balanced limit ts e :
-  Forall wf_tok ts -> parse_tokens true limit ts = Ok e -> balanced_go [] (toks_str ts) = true.
+Lemma parse_raw_balanced limit ts e :
+  Forall wf_tok ts -> parse_raw true limit ts = Ok e -> balanced_go [] (toks_str ts) = true.
 Proof.
-  intros Hwf H. unfold parse_tokens in H.
+  intros Hwf H. unfold parse_raw in H.
   pose proof (p_or_cons (Nat.min (S (length ts)) limit) ts Hwf) as Hc.
   destruct (p_or true (Nat.min (S (length ts)) limit) ts) as [[e' r]|]; [|discriminate].
   simpl in *. destruct r; [|discriminate].
   destruct Hc as (pre & Hpre & Hn). rewrite app_nil_r in Hpre. subst pre.
   specialize (Hn [] []). rewrite app_nil_r in Hn. exact Hn.
+Qed.
+
+Lemma parse_tokens_balanced limit ts e :
+  Forall wf_tok ts -> parse_tokens true limit ts = Ok e -> balanced_go [] (toks_str ts) = true.
+Proof.
+  intros Hwf H. unfold parse_tokens in H.
+  destruct (parse_raw true limit ts) as [e0|x] eqn:Hr.
+  - inversion H; subst. apply parse_raw_balanced with limit e; assumption.
+  - destruct x; discriminate.
 Qed.
 
 (* ---------------------------------------------------------------- the tokenizer keeps the grouping characters *)
@@ -459,4 +468,28 @@ Lemma unbalanced_rejected limit q :
 Proof.
   intro Hb. destruct (compile_total true limit q) as [(e & H) | H]; [|exact H].
   apply compile_balanced in H. congruence.
+Qed.
+
+(* the same before the except clause: an unbalanced text never yields a tree,
+   at any depth ... *)
+Lemma unbalanced_never_compiles limit q e :
+  balanced_groupers q = false -> compile_raw true limit q <> Ok e.
+Proof.
+  intros Hb H. unfold compile_raw in H.
+  apply parse_raw_balanced in H; [|apply tokenize_wf].
+  unfold balanced_groupers in Hb.
+  rewrite balanced_go_gr, <- fold_gr, <- tokenize_gr, <- balanced_go_gr in Hb. congruence.
+Qed.
+
+(* ... and with enough depth (one level per token) the rejection is GENUINE: the
+   parser's own ValueError, not an exhausted depth *)
+Lemma unbalanced_rejected_genuine limit q :
+  balanced_groupers q = false -> S (length (tokenize (fold q))) <= limit ->
+  compile_raw true limit q = Exn ValueError.
+Proof.
+  intros Hb Hl.
+  destruct (compile_raw_total true limit q) as [(e & H) | [H | [_ H]]].
+  - exfalso. exact (unbalanced_never_compiles limit q e Hb H).
+  - exact H.
+  - exfalso. exact (compile_raw_enough true limit q Hl H).
 Qed.
